@@ -145,7 +145,7 @@ def refines_spec(cls, nids):
 
 def _seq_family(tier, seed):
     if tier == "quick":
-        return [{"cls": "passive", "nids": 1, "steps": 2}]
+        return [{"cls": "passive", "nids": 1, "steps": 2}, {"cls": "passive", "nids": 2, "steps": 2}]
     return [{"cls": "passive", "nids": 1, "steps": 3}, {"cls": "passive", "nids": 2, "steps": 2},
             {"cls": "active", "nids": 1, "steps": 2}]
 
